@@ -44,7 +44,7 @@ func cmdCheck(args []string) int {
 	evdir := fs.String("evidence", "/verif/evidence", "evidence directory")
 	replayRoot := fs.String("replay", "/verif/replay", "directory for violation replays")
 	workers := fs.Int("workers", runtime.NumCPU(), "parallel workers")
-	solver := fs.String("solver", "z3", "solver binary (z3 -in compatible)")
+	solver := fs.String("solver", "z3-new", "solver binary (z3 -in compatible)")
 	only := fs.String("only", "", "run only entries whose name contains this")
 	logq := fs.Bool("log", false, "log SMT queries")
 	known := fs.String("known", "/verif/known_findings.json", "known findings file")
@@ -84,7 +84,7 @@ func cmdCheck(args []string) int {
 	loadT := time.Since(t0)
 	prog.cfg = runCfg{
 		BranchTimeoutMs: 2000, AssertTimeoutMs: 20000, MaxConcretize: 64, MaxSteps: 5000000, MaxAlloc: 1 << 16,
-		MaxSymIndex: 64, SkipInit: map[string]bool{}, NoIntrinsic: map[string]bool{}, Thorough: thorough, NoSpeculate: cc.NoSpeculate,
+		MaxSymIndex: 512, SkipInit: map[string]bool{}, NoIntrinsic: map[string]bool{}, Thorough: thorough, NoSpeculate: cc.NoSpeculate,
 	}
 	if cc.AssertTimeoutS > 0 {
 		prog.cfg.AssertTimeoutMs = cc.AssertTimeoutS * 1000
